@@ -65,16 +65,14 @@ Definition find_mem (l : list node) (x : N) : option node :=
   | None => None
   end.
 
-(* x, parent of x, ... down to the root; fuel = number of nodes *)
-Fixpoint anc_fuel (f : nat) (l : list node) (x : N) : list node :=
-  match f with
-  | O => []
-  | S f' => match find x l with
-            | None => []
-            | Some n => n :: anc_fuel f' l (n_prev n)
-            end
+(* x, parent of x, ... down to the root.  The node list is newest-first and a header is only
+   ever accepted after its parent, so a parent always sits further down the list than its
+   child: one structural pass finds x, then x's parent in the remainder, and so on. *)
+Fixpoint ancestors (l : list node) (x : N) : list node :=
+  match l with
+  | [] => []
+  | n :: l' => if n_hash n =? x then n :: ancestors l' (n_prev n) else ancestors l' x
   end.
-Definition ancestors (l : list node) (x : N) : list node := anc_fuel (length l) l x.
 
 (* the chain from the root up to x, as hashes *)
 Definition chain_of (l : list node) (x : N) : list N := rev (map n_hash (ancestors l x)).
@@ -184,7 +182,7 @@ Inductive op :=
 | OUnmark (x : N)
 | OClean (depth : Z)
 | OSave
-| OLoad (depth : Z)
+| OLoad (depth : Z) (pick : N)
 | OObserve (queries : list N).
 
 (* one lookup row: HashHeight; CheckHeader (height, flag, ok); PreviousHash; GetHeader ok *)
@@ -263,12 +261,15 @@ Definition save (s : st) : st * out :=
   let l1 := consolidate (nodes s) (tip s) in
   (mkSt l1 (tip s) (invalid s) (ghosts s) (Some (mkSnap l1 (tip s))) (Some (invalid s)), RUnit).
 
-Definition load (s : st) (depth : Z) : st * out :=
+(* Load: reads the branches of the index, keeps what is within [depth] and recomputes the
+   longest branch from what it read *)
+Definition load (s : st) (depth : Z) (pick : N) : st * out :=
   match saved s with
   | None => (s, RLoad false)       (* empty storage: outside this model (migration / genesis) *)
   | Some sn =>
       let inv := match saved_invalid s with Some i => i | None => [] end in
-      (mkSt (load_nodes sn depth) (sn_tip sn) inv (load_ghosts sn depth) (saved s) (saved_invalid s),
+      let l1 := load_nodes sn depth in
+      (mkSt l1 (choose_tip l1 (sn_tip sn) pick) inv (load_ghosts sn depth) (saved s) (saved_invalid s),
        RLoad true)
   end.
 
@@ -301,7 +302,7 @@ Definition step (cfg : config) (s : st) (o : op) : st * out :=
   | OUnmark x => unmark s x
   | OClean d => clean s d
   | OSave => save s
-  | OLoad d => load s d
+  | OLoad d pick => load s d pick
   | OObserve qs => (s, observe s qs)
   end.
 
@@ -386,7 +387,7 @@ Definition out_sync (m i : out) : bool :=
   end.
 
 Definition op_pick (o : op) : option N :=
-  match o with OSubmit _ p => Some p | OMark _ p => Some p | _ => None end.
+  match o with OSubmit _ p => Some p | OMark _ p => Some p | OLoad _ p => Some p | _ => None end.
 
 Fixpoint run_ok (cfg : config) (mask : N) (s : st) (ops : list op) (obs : list out) : bool :=
   match ops, obs with
@@ -443,7 +444,7 @@ Fixpoint stream_ok (prevs : list (N * N)) (view : option (list N)) (ops : list o
           | None => stream_ok prevs (Some chain) ops' obs'
           | Some c => listN_eqb c chain && stream_ok prevs view ops' obs'
           end
-      | OMark _ _, _ | OLoad _, _ => stream_ok prevs None ops' obs'
+      | OMark _ _, _ | OLoad _ _, _ => stream_ok prevs None ops' obs'
       | _, _ => stream_ok prevs view ops' obs'
       end
   | _, _ => true
